@@ -623,6 +623,9 @@ def xirr_case(ctx, res, sink, F, vals, ds, guess=None, how='random'):
             listed = any(e['id'] == 'D2002' and e.get('status') == 'known' for e in ctx.known)
             if real == 'E:NUM' and model is None and listed:
                 res.known.setdefault('D2002', []).append(inp)
+                res.count('D2002:horizon ' + ('<5y' if span < 5 else '<20y' if span < 20 else '<30y' if span < 30
+                                              else '>=30y'))
+                res.count('D2002:' + ('default guess' if guess is None else 'explicit guess'))
             else:
                 res.violations.append({
                     'what': 'XIRR returns no rate for an outlay followed by larger returns'
@@ -851,13 +854,13 @@ def run(ctx):
         fn(*args)
         sink.flush(ctx)
         timing[name] = round(time.time() - t, 1)
-    timed('npv', sec_npv, ctx, res, sink, F, 30000 if thorough else 1500)
+    timed('npv', sec_npv, ctx, res, sink, F, 30000 if thorough else 3000)
     timed('annuity', sec_annuity, ctx, res, sink, F, thorough)
-    timed('sln', sec_sln, ctx, res, sink, F, 5000 if thorough else 400)
-    timed('xnpv', sec_xnpv, ctx, res, sink, F, 15000 if thorough else 700)
-    timed('irr', sec_irr, ctx, res, sink, F, 15000 if thorough else 500)
-    timed('xirr', sec_xirr, ctx, res, sink, F, 12000 if thorough else 400)
-    timed('formulas', sec_formulas, ctx, res, F, 1600 if thorough else 160)
+    timed('sln', sec_sln, ctx, res, sink, F, 5000 if thorough else 500)
+    timed('xnpv', sec_xnpv, ctx, res, sink, F, 15000 if thorough else 1500)
+    timed('irr', sec_irr, ctx, res, sink, F, 15000 if thorough else 1500)
+    timed('xirr', sec_xirr, ctx, res, sink, F, 12000 if thorough else 800)
+    timed('formulas', sec_formulas, ctx, res, F, 1600 if thorough else 320)
     res.extra['section_seconds'] = timing
     res.exhaustive = True       # the (rate, nper, pv, fv, type) grid is enumerated completely
     res.extra['grid'] = {k: len(v) for k, v in (GRID_T if thorough else GRID_Q).items()}
